@@ -556,11 +556,11 @@ func raceKey(blk string) string {
 	return strings.Join(uniq, "|")
 }
 
-// runCoverage re-runs a slice of the quick workload (4 of 16 shards) under a -cover build of
+// runCoverage re-runs the quick workload (4 workers) under a -cover build of
 // the harness whose counters include github.com/pion/rtcp, and reports the statement coverage
 // of the package per source file, in particular for the files the property is anchored in.
-// Evidence of reach only: it never produces a violation; an anchor file with zero coverage
-// makes the run inconclusive.
+// Evidence of reach only: it never produces a violation; a run that reached none of its
+// anchor files is inconclusive.
 func (m *merge) runCoverage(workdir string, nshards int) {
 	exe, _ := os.Executable()
 	cover := filepath.Join(filepath.Dir(exe), "vcheck-cover")
@@ -571,13 +571,15 @@ func (m *merge) runCoverage(workdir string, nshards int) {
 	covdir := filepath.Join(workdir, "cov")
 	_ = os.MkdirAll(covdir, 0o755)
 	var wg sync.WaitGroup
-	for i := 0; i < 4 && i < nshards; i++ {
+	// the whole quick workload, split over 4 workers (a stride of 4 visits every kind: several
+	// workloads pick the packet type by index modulo 16)
+	for i := 0; i < 4; i++ {
 		wg.Add(1)
 		go func(i int) {
 			defer wg.Done()
 			out := filepath.Join(workdir, fmt.Sprintf("cov%02d.json", i))
 			cmd := exec.Command(cover, "worker", "-prop", m.prop, "-tier", "quick", "-seed", strconv.FormatUint(m.seed, 10),
-				"-shard", strconv.Itoa(i), "-nshards", strconv.Itoa(nshards), "-out", out)
+				"-shard", strconv.Itoa(i), "-nshards", "4", "-out", out)
 			cmd.Env = append(os.Environ(), "GOCOVERDIR="+covdir, "GOMAXPROCS=2")
 			_ = cmd.Run()
 		}(i)
@@ -623,16 +625,24 @@ func (m *merge) runCoverage(workdir string, nshards int) {
 	}
 	anchors := anchorFiles(m.prop)
 	var zero []string
+	withStatements, reached := 0, 0
 	for _, a := range anchors {
-		if c := files[a]; c != nil && c.total > 0 && c.hit == 0 {
-			zero = append(zero, a)
+		if c := files[a]; c != nil && c.total > 0 {
+			withStatements++
+			if c.hit == 0 {
+				zero = append(zero, a)
+			} else {
+				reached++
+			}
 		}
 	}
-	m.coverage = map[string]any{"how": "4 of 16 shards of the quick workload re-run under `go build -cover -coverpkg=github.com/pion/rtcp,...`",
+	m.coverage = map[string]any{"how": "the quick workload re-run (4 workers) under `go build -cover -coverpkg=github.com/pion/rtcp,...`",
 		"package_statements": tot, "package_covered": hit, "package_percent": float64(int(1000*float64(hit)/float64(maxInt(tot, 1)))) / 10,
 		"per_file": per, "anchor_files": anchors, "anchor_files_with_zero_coverage": zero}
-	if len(zero) > 0 {
-		m.inconcl = append(m.inconcl, "anchor files never reached by this check's workload: "+strings.Join(zero, ", "))
+	if withStatements > 0 && reached == 0 {
+		m.inconcl = append(m.inconcl, "none of the anchor files was reached by this check's workload: "+strings.Join(zero, ", "))
+	} else if len(zero) > 0 {
+		m.notes = append(m.notes, "anchor files not reached by the coverage run of this check: "+strings.Join(zero, ", "))
 	}
 }
 
